@@ -1,6 +1,7 @@
 import Proofs.BatchLemmas
 import Pegnet.Generated.Facts
 import Proofs.Holding
+import Proofs.Moves
 /-
   C17 — History and status tell the truth about the ledger.
 -/
@@ -109,6 +110,36 @@ theorem pending_only_while_waiting_partial {P : Params} {c : DB} {b : Block} {av
       Considered P b.height rates avgs c s' row.entry :=
   block_considers_held hpos hrun htx
 
+/-! ### the recorded amounts are the amounts that moved -/
+
+/-- **An executed conversion's history row carries the amount credited**: `to_amount` of the row
+    is `out = ⌊in·src/dst⌋`, the amount `executed_batch_moves_exactly` (C04) shows was added to the
+    destination balance. -/
+theorem conversion_row_tells_the_credit (P : Params) (h : Nat) (hash : Hash) (rates avgs : Option TMap) (idx : Nat) (t : Tx)
+    (s s' : DB) (hnp : ¬ (h ≥ P.act.convLimit ∧ t.isPEGRequest = true)) (hcv : t.isConversion P = true)
+    (hr : recordOutputs P h hash rates avgs idx t s = .ok () s') :
+    ∃ out, convert P.act.pip10 h (toInt64 t.inAmount) ((rates.getD []).get t.inType) ((avgs.getD []).get t.inType)
+        ((rates.getD []).get t.conversion) ((avgs.getD []).get t.conversion) = some out ∧
+      (∀ r ∈ s'.histT, r.hash = hash → r.txIndex = (idx : Int) → r.toAmount = out) ∧
+      ∀ a x, s'.bal a x = s.bal a x + (if a = t.inAddr ∧ x = t.conversion then out else 0) := by
+  obtain ⟨out, hconv, hrow⟩ := conversion_row_records_credit P h hash rates avgs idx t s s' hnp hcv hr
+  refine ⟨out, hconv, hrow, ?_⟩
+  have := recordOutputs_exact P h hash rates avgs idx t s
+  rw [hr] at this
+  intro a x
+  rw [this a x]
+  unfold outDelta
+  rw [if_neg hnp, if_pos hcv, hconv]
+
+/-- **A paid PEG request's row carries yield and refund** (bank era) -/
+theorem peg_request_row_tells_the_payment (P : Params) (h : Nat) (rates : TMap) (rq : PegReq) (y : Nat) (s s' : DB)
+    (hr : payPegReq P h rates rq y s = .ok () s') :
+    ∀ r ∈ s'.histT, r.hash = rq.key.hash → r.txIndex = (rq.key.idx : Int) →
+      r.toAmount = toInt64 y ∧
+      r.outputs = renderOutputs [(rq.tx.inAddr,
+        refund P.act.pip10 h (toInt64 rq.tx.inAmount) (toInt64 y) (rates.get rq.tx.inType) (rates.get rq.tx.conversion))] :=
+  pegRequest_row_records_payment P h rates rq y s s' hr
+
 end Pegnet.C17
 
 #print axioms Pegnet.C17.pages_concat
@@ -119,3 +150,5 @@ end Pegnet.C17
 #print axioms Pegnet.C17.set_executed_exact
 #print axioms Pegnet.C17.unconvertible_amount_stays_pending
 #print axioms Pegnet.C17.pending_only_while_waiting_partial
+#print axioms Pegnet.C17.conversion_row_tells_the_credit
+#print axioms Pegnet.C17.peg_request_row_tells_the_payment
